@@ -195,3 +195,249 @@ def strace_sample(ctx, results, n=12):
 
 
 CHECKS = {'C12': c12}
+
+
+# ------------------------------------------------------------------------------------------------ C export host
+
+CHOST_SRC = os.path.join(tools.VERIF, 'runtimes', 'chost', 'host.c')
+
+
+def build_chost(ctx):
+    so = ctx.so
+    d = os.path.dirname(so)
+    out = os.path.join(d, 'chost')
+    if os.path.exists(out):
+        return out
+    rc, log = tools.run(['clang', '-g', '-O1', '-fsanitize=address,undefined', '-fno-sanitize-recover=all', '-fno-omit-frame-pointer', CHOST_SRC, '-o', out,
+                         '-L', d, '-lpacketdsl', '-Wl,-rpath,' + d])
+    if rc != 0:
+        raise tools.BuildError('C host build failed:\n' + log)
+    return out
+
+
+def run_chost(ctx, inputs, name, batch=200):
+    """inputs: [(id, bytes)] -> {id: bytes|('CRASH', text)}; one child per batch, each input written to disk first."""
+    host = build_chost(ctx)
+    res = {}
+    d = os.path.join(ctx.scr.dir, 'chost_' + name)
+    os.makedirs(d, exist_ok=True)
+    env = dict(os.environ)
+    env['ASAN_OPTIONS'] = 'halt_on_error=1:abort_on_error=0:detect_leaks=1:exitcode=97'
+    env['UBSAN_OPTIONS'] = 'halt_on_error=1:print_stacktrace=1'
+    queue = list(inputs)
+    bn = 0
+    while queue:
+        chunk, queue = queue[:batch], queue[batch:]
+        bn += 1
+        lst = os.path.join(d, 'list%d.txt' % bn)
+        with open(lst, 'w') as lf:
+            for cid, data in chunk:
+                p = os.path.join(d, 'in_%s.bin' % cid)
+                with open(p, 'wb') as f:
+                    f.write(data)
+                lf.write('%s %s\n' % (cid, p))
+        outp = os.path.join(d, 'out%d.txt' % bn)
+        with open(outp, 'wb') as of:
+            p = subprocess.run(['timeout', '-s', 'QUIT', '-k', '5', '300', host, lst], stdout=of, stderr=subprocess.STDOUT, env=env)
+        with open(outp, 'rb') as of:
+            text = of.read().decode('utf-8', 'replace')
+        begun = None
+        done = False
+        for line in text.split('\n'):
+            if line.startswith('BEGIN '):
+                begun = line[6:]
+            elif line.startswith('RESULT '):
+                parts = line.split(' ')
+                res[parts[1]] = bytes.fromhex(parts[3]) if len(parts) > 3 and parts[2] != '-1' else b''
+                begun = None
+            elif line == 'DONE':
+                done = True
+        if not done:
+            # the child died while processing `begun`; everything after it in the chunk is re-queued
+            ids = [c for c, _ in chunk]
+            if begun in ids:
+                res[begun] = ('CRASH', 'exit %s: %s' % (p.returncode, text[-1800:]))
+                rest = chunk[ids.index(begun) + 1:]
+                queue = rest + queue
+            else:
+                for c, _ in chunk:
+                    if c not in res:
+                        res[c] = ('CRASH', 'host died before BEGIN (exit %s): %s' % (p.returncode, text[-800:]))
+        elif 'ERROR: AddressSanitizer' in text or 'ERROR: LeakSanitizer' in text or 'runtime error:' in text:
+            for c, _ in chunk:
+                if not isinstance(res.get(c), tuple):
+                    pass
+            res['__sanitizer__%d' % bn] = ('CRASH', 'sanitizer report in batch %d: %s' % (bn, text[-1800:]))
+        for cid, _ in chunk:
+            try:
+                os.remove(os.path.join(d, 'in_%s.bin' % cid))
+            except OSError:
+                pass
+    return res
+
+
+# ------------------------------------------------------------------------------------------------ C11
+
+def triage11(ctx, label, entry, symptom, site, what, replay):
+    from . import check
+    feats = {'label:' + label, 'label0:' + label.split('/')[0], 'entry:' + entry, 'site:' + (site or '?')}
+    app = [fd for fd in check.applicable(ctx.findings_db, 'C11', 'any', feats) if check.symptom_matches(fd, symptom, what)]
+    if app:
+        ctx.finding_excluded[app[0]['id']] += 1
+        ctx.known_finding(app[0]['id'], app[0]['what'])
+        return
+    ctx.violation(('C11', symptom, entry, site or label), '%s via %s [%s] %s' % (symptom, entry, label, what), replay)
+
+
+def c11(ctx):
+    from . import hostile
+    quick = ctx.tier == 'quick'
+    ctx.cov['rule'] = ('(a) every fieldDefinition alternative x optional elements x each attribute, option name x value kind, MetaData/packet shapes; (b) semantically ill-formed programs '
+                       '(single-fault variants of every C12 class, recursion, no root, huge DIGITS, key/type mismatches); (c) byte level (every prefix of valid texts, byte flips/deletes/inserts, '
+                       'random bytes, token soup, invalid UTF-8, NUL, 64 KiB line, nesting 10/1000/20000). Each through format and parse+all six generators in-process (recover() + stack), '
+                       'a sample through the real CLI (format -d, format -f, compile with six outputs) and all through FormatPacketDslExport in an ASan/UBSan/LSan C host. '
+                       'oracle: no recovered panic, no child death/fatal error/sanitizer report; watchdog expiry = inconclusive. distinct = (label, entry point) pairs x distinct texts')
+    texts = []
+    for label, t in hostile.shape_texts():
+        texts.append((label, t.encode('utf-8', 'surrogateescape')))
+    for label, t in hostile.semantic_texts(ctx.seed, quick):
+        texts.append((label, t.encode('utf-8', 'surrogateescape')))
+    valid = [dslprint.render(p) for p in gen.matrix_protos()[::17]]
+    texts += hostile.byte_texts(ctx.seed, quick, valid)
+    seen = set()
+    uniq = []
+    for label, b in texts:
+        if b in seen:
+            continue
+        seen.add(b)
+        uniq.append((label, b))
+    texts = uniq
+    ctx.cov['texts'] = len(texts)
+    labels = {}
+    sites = {}
+    # ---- in-process
+    v = ctx.vapi
+    for i, (label, b) in enumerate(texts):
+        labels[label.split('/')[0]] = labels.get(label.split('/')[0], 0) + 1
+        rep = {'label': label, 'input_b64': tools.b64(b), 'input_preview': b[:300].decode('utf-8', 'replace')}
+        for entry in ('format', 'compile'):
+            ctx.evaluated(1, key=(label, entry, hash(b) % 100000))
+            try:
+                if entry == 'format':
+                    r = v.call({'op': 'format', 'text_b64': tools.b64(b)}, timeout=180)
+                    pans = [('format', r['panic'])] if r.get('panic') else []
+                else:
+                    r = v.call({'op': 'compile', 'text_b64': tools.b64(b), 'langs': tools.LANGS, 'shared': True}, timeout=180)
+                    pans = list((r.get('panics') or {}).items())
+            except tools.VapiDied as e:
+                if str(e) == 'timeout':
+                    ctx.inconc('watchdog: %s of a %s text did not finish in 180 s (input saved in replay dir)' % (entry, label))
+                    ctx.violation(('C11', 'watchdog', entry, label), 'no termination within the watchdog (inconclusive, input kept)', dict(rep, stderr=e.stderr_tail)) if False else None
+                    continue
+                m = re.search(r'(fatal error: [^\n]*|panic: [^\n]*)', e.stderr_tail or '')
+                st = re.search(r'fin-protoc/internal/([a-z]+/[a-z_]+\.go):(\d+)', e.stderr_tail or '')
+                site = st.group(1) if st else '?'
+                triage11(ctx, label, 'in-process ' + entry, 'fatal', site, 'process died (%s): %s' % (e, m.group(1) if m else (e.stderr_tail or '')[-200:]), dict(rep, stderr=(e.stderr_tail or '')[-3000:]))
+                continue
+            for stage, pn in pans:
+                sites[pn['site']] = sites.get(pn['site'], 0) + 1
+                triage11(ctx, label, 'in-process %s/%s' % (entry, stage), 'panic', pn['site'], 'recovered panic at %s: %s' % (pn['site'], pn['value']), dict(rep, panic=pn))
+    ctx.cov['labels'] = labels
+    ctx.cov['panic_sites_seen'] = sites
+    # ---- CLI children (sample)
+    ctx.cli
+    step = 3 if quick else 1
+    sample = [(i, l, b) for i, (l, b) in enumerate(texts) if i % step == 0 or not l.startswith(('prefix', 'byte-', 'token-soup', 'random-bytes', 'shape-attr'))]
+
+    def cli_one(job):
+        i, label, b = job
+        wd = os.path.join(ctx.scr.dir, 'c11', 'j%d' % i)
+        os.makedirs(wd, exist_ok=True)
+        out = []
+        src = os.path.join(wd, 'in.dsl')
+        with open(src, 'wb') as f:
+            f.write(b)
+        rc, o, written = compile_all_targets(ctx, b, wd)
+        out.append(('compile', rc, o))
+        with open(src, 'wb') as f:
+            f.write(b)
+        rc, o = run_cli(ctx, ['format', '-f', src], wd)
+        out.append(('format -f', rc, o))
+        if b and b'\x00' not in b and len(b) < 100000:
+            try:
+                arg = b.decode('utf-8')
+                rc, o = run_cli(ctx, ['format', '-d', arg], wd)
+                out.append(('format -d', rc, o))
+            except UnicodeDecodeError:
+                pass
+        shutil.rmtree(wd, ignore_errors=True)
+        return job, out
+    with ThreadPoolExecutor(max_workers=16) as ex:
+        for (i, label, b), outs in ex.map(cli_one, sample):
+            for entry, rc, o in outs:
+                ctx.evaluated(1, key=(label, 'cli ' + entry, hash(b) % 100000))
+                cr = crashed(rc, o)
+                if cr == 'watchdog':
+                    ctx.inconc('watchdog: CLI %s of a %s text did not finish' % (entry, label))
+                elif cr:
+                    st = re.search(r'fin-protoc/internal/([a-z]+/[a-z_]+\.go):(\d+)', o.decode('utf-8', 'replace'))
+                    fn = re.search(r'fin-protoc/internal/[a-z]+\.\(?\*?([A-Za-z]+)\)?\.([A-Za-z]+)\(', o.decode('utf-8', 'replace'))
+                    site = (st.group(1) + ':' + (fn.group(1) + '.' + fn.group(2) if fn else '?')) if st else '?'
+                    triage11(ctx, label, 'cli ' + entry, 'cli-crash', site, '%s' % cr, {'label': label, 'input_b64': tools.b64(b), 'input_preview': b[:300].decode('utf-8', 'replace'), 'output': o.decode('utf-8', 'replace')[-2500:]})
+    ctx.cov['cli_texts'] = len(sample)
+    # ---- exported C function under ASan/UBSan/LSan
+    exp = [(str(i), b) for i, (l, b) in enumerate(texts)]
+    res = run_chost(ctx, exp, 'c11')
+    for i, (label, b) in enumerate(texts):
+        r = res.get(str(i))
+        ctx.evaluated(1, key=(label, 'export', hash(b) % 100000))
+        if isinstance(r, tuple):
+            st = re.search(r'fin-protoc/internal/([a-z]+/[a-z_]+\.go):(\d+)', r[1])
+            triage11(ctx, label, 'export', 'host-crash', st.group(1) if st else '?', 'host process died in FormatPacketDslExport: %s' % r[1][-300:].replace('\n', ' | '),
+                     {'label': label, 'input_b64': tools.b64(b), 'input_preview': b[:300].decode('utf-8', 'replace'), 'output': r[1]})
+        elif r is None:
+            ctx.counters['export-not-run'] += 1
+    for k, r in res.items():
+        if k.startswith('__sanitizer__'):
+            triage11(ctx, 'batch', 'export', 'sanitizer-report', '?', r[1][-600:], {'output': r[1]})
+    ctx.cov['export_calls'] = len(exp)
+    ctx.sample({'label': texts[5][0], 'input': texts[5][1][:200].decode('utf-8', 'replace')})
+    ctx.sample({'label': texts[-1][0], 'input': texts[-1][1][:200].decode('utf-8', 'replace')})
+    ctx.assumptions += ['hang detection is a bounded watchdog (180 s in-process, 120 s per child) whose expiry is inconclusive, not a violation',
+                        'the C API takes NUL-terminated strings: inputs with an embedded NUL reach the export truncated at the NUL']
+    probes(ctx, 'C11')
+
+
+CHECKS['C11'] = c11
+
+
+# ------------------------------------------------------------------------------------------------ resource probes (C11)
+
+from . import probes as _probes
+
+
+@_probes.prober('cli-resource')
+def probe_cli_resource(ctx, prop, fd, pr):
+    """run `fin-protoc compile` on the probe text in a child with a memory limit and a short watchdog.
+    same = watchdog expiry or out-of-memory death (the recorded blow-up); None = finished normally."""
+    wd = os.path.join(ctx.scr.dir, 'probe_' + fd['id'])
+    os.makedirs(wd, exist_ok=True)
+    src = os.path.join(wd, 'in.dsl')
+    text = pr['text']
+    if pr.get('python_expr'):
+        text = eval(pr['python_expr'], {})       # the text is generated (e.g. 2000 nested objects), the expression is part of the committed finding
+    with open(src, 'w') as f:
+        f.write(text)
+    args = ' '.join(["'%s'" % ctx.cli, '-f', "'%s'" % src] + ['%s %s' % (FLAGS[l], os.path.join(wd, 'o_' + l)) for l in pr.get('langs', tools.LANGS)])
+    cmd = 'ulimit -v %d; exec timeout -s KILL %d %s' % (int(pr.get('mem_kb', 3000000)), int(pr.get('timeout_s', 20)), args)
+    p = subprocess.run(['bash', '-c', cmd], stdout=subprocess.PIPE, stderr=subprocess.STDOUT, cwd=wd)
+    out = p.stdout.decode('utf-8', 'replace')
+    shutil.rmtree(wd, ignore_errors=True)
+    if p.returncode in (137, -9, 124):
+        return ('same', 'killed by the %ss watchdog' % pr.get('timeout_s', 20))
+    if 'out of memory' in out or 'cannot allocate memory' in out:
+        return ('same', 'out of memory under ulimit -v %s KB' % pr.get('mem_kb', 3000000))
+    cr = crashed(p.returncode, out.encode())
+    if cr:
+        return ('different', cr)
+    return None
